@@ -839,6 +839,36 @@ def mcp_covered_indicator(ctx: Ctx):
     ctx.ob("C03.f", "MCPEnv._get_reward:covered-indicator", ok, sl.where, why, construct="MCPEnv._get_reward:covered-indicator")
 
 
+def svrp_technician_counter(ctx: Ctx):
+    """C03.g SVRP charges each route at the rate of the technician who drives it, assigned by a Python loop over the depot
+    visits of the action sequence.  Structural necessary conditions of that loop: every depot visit (loop iteration) writes the
+    current technician's rate to the legs since the previous visit and then advances the technician by exactly one -- no
+    iteration is skipped (`continue` / `break`) and the increment is unconditional; a new batch row restarts at technician 0."""
+    import ast
+    env = EnvA(ctx.repo, T.ALL_ENVS["SVRPEnv"], "SVRPEnv")
+    fi = env.resolve("_get_reward")
+    ctx.fn(fi)
+    loops = [n for n in ast.walk(fi.node) if isinstance(n, ast.For)]
+    ok, why = False, f"expected one loop over the depot visits, found {len(loops)}"
+    if len(loops) == 1:
+        lp = loops[0]
+        jumps = [n for n in ast.walk(lp) if isinstance(n, (ast.Continue, ast.Break))]
+        top = lp.body
+        incs = [st for st in top if isinstance(st, ast.AugAssign) and isinstance(st.op, ast.Add) and isinstance(st.target, ast.Name)
+                and isinstance(st.value, ast.Constant) and st.value.value == 1]
+        nested_incs = [n for n in ast.walk(lp) if isinstance(n, ast.AugAssign) and n not in incs and isinstance(n.target, ast.Name) and incs and n.target.id == incs[0].target.id]
+        rate_writes = [i for i, st in enumerate(top) if isinstance(st, ast.Assign) and "tech_costs" in ast.unparse(st.value) and isinstance(st.targets[0], ast.Subscript)]
+        ctr = incs[0].target.id if len(incs) == 1 else None
+        uses_ctr = ctr is not None and all(any(isinstance(x, ast.Name) and x.id == ctr for x in ast.walk(top[i].value)) for i in rate_writes)
+        order_ok = bool(rate_writes) and len(incs) == 1 and max(rate_writes) < top.index(incs[0])
+        # the restart for a new batch row resets the counter to 0
+        resets = [n for n in ast.walk(lp) if isinstance(n, ast.Assign) and any(isinstance(t, ast.Name) and t.id == ctr for t in n.targets) and isinstance(n.value, ast.Constant) and n.value.value == 0]
+        ok = not jumps and len(incs) == 1 and not nested_incs and uses_ctr and order_ok and bool(resets)
+        why = (f"no skipped iteration: {not jumps}; one unconditional `{ctr} += 1` per depot visit: {len(incs) == 1 and not nested_incs}; the rate written before it is tech_costs[{ctr}]: {uses_ctr and order_ok}; "
+               f"restart at 0 for a new row: {bool(resets)}")
+    ctx.ob("C03.g", "SVRPEnv._get_reward:technician-per-route", ok, fi.loc, why, construct="SVRPEnv._get_reward:technician-counter")
+
+
 def flp_min_axis(ctx: Ctx):
     """C03.e FLP: `min over the chosen facilities` is a reduction over axis 1 of a [B, k, n] tensor.  gather_by_index drops the
     gathered axis when exactly one index is gathered (k = 1), so the operand's rank must be fixed explicitly (view / reshape to
@@ -946,6 +976,7 @@ def run(ctx: Ctx):
     incremental(ctx)
     flp_min_axis(ctx)
     mcp_covered_indicator(ctx)
+    svrp_technician_counter(ctx)
 
 
 def run_thorough(ctx: Ctx):
